@@ -278,7 +278,7 @@ func checkC06(c *core.Ctx, r *core.Report) {
 					n++
 					construct := shortFn(fn) + ":rows-handed-back-imply-not-exhausted"
 					var leak ssa.Instruction
-					core.WalkForward(fn, st, func(x ssa.Instruction) bool {
+					core.WalkForwardEdges(fn, st, func(x ssa.Instruction) bool {
 						if s2, ok := x.(*ssa.Store); ok && isFieldAddrOf(s2.Addr, exhausted) {
 							if k, ok := s2.Val.(*ssa.Const); ok && k.Value != nil && k.Value.String() == "false" {
 								return false
@@ -289,6 +289,26 @@ func checkC06(c *core.Ctx, r *core.Report) {
 						}
 						if ret, ok := x.(*ssa.Return); ok {
 							leak = ret
+						}
+						return true
+					}, func(from, to *ssa.BasicBlock) bool {
+						// do not follow the edge on which the stored value is nil
+						if ifi, ok := core.LastIf(from); ok {
+							if bo, ok := ifi.Cond.(*ssa.BinOp); ok && (bo.X == st.Val || bo.Y == st.Val) {
+								other := bo.Y
+								if bo.Y == st.Val {
+									other = bo.X
+								}
+								if core.IsNilConst(other) {
+									nilEdge := from.Succs[1]
+									if bo.Op.String() == "==" {
+										nilEdge = from.Succs[0]
+									}
+									if to == nilEdge && from.Succs[0] != from.Succs[1] {
+										return false
+									}
+								}
+							}
 						}
 						return true
 					})
